@@ -97,6 +97,7 @@ def stepModel (seq : Bool) (w : World) (o : HOp) : World × Bool :=
   | "reg1" => let (b, ok) := w.u.base.registerModel o.e o.model; ({ w with u := { w.u with base := b } }, ok)
   | "remove" => ({ w with u := w.u.removeEndpoint active o.e }, true)
   | "run" => ({ w with u := w.u.runTask active o.i }, true)
+  | "wait" => (w, true)  -- time passes with nothing reported: no state of the property's moves
   | _ => (w, false)      -- badurl
 
 /-- the same op as the property sees it (pure filter semantics) -/
